@@ -162,6 +162,16 @@ CHECKS["C15"] = (
     "DESIGN.md section 3, C15",
 )
 
+CHECKS["C16"] = (
+    "bounded-exhaustive enumeration of (models x CRUD subsets x routes x apps) through both generators; closed-document invariants",
+    "All combinations of 6 model names, 3 primary-key kinds, 1-3 columns, all 7 non-empty CRUD subsets, 2 route prefixes (2 app names), and "
+    "documents with 2 (all 49 CRUD pairs) and 3 models go through openapi.emit.openapi and through the sqlalchemy -> gen_routes -> "
+    "upsert_routes -> openapi_bulk pipeline (separate and shared routes file); every document must serialise, every $ref must resolve in "
+    "it, every path parameter be declared, the operations per path be exactly the requested ones and the schema list the model's columns.",
+    "expected operation placement (C: POST on collection; R/D: GET/DELETE on item) is taken from the property text",
+    "DESIGN.md section 3, C16",
+)
+
 PENDING_REASON = "check not built yet in this revision (planned, see DESIGN.md section 3); no claim is made"
 
 
